@@ -173,8 +173,8 @@ def win_scan_mix_stack(rng, depth):
     [arguments pushed for its callee = parameter size of function i-1][locals][saved regs][return address]: the arguments
     are there whatever technique recovered frame i, so the function i+1 must come out by the plain formula also when
     frame i was found by scanning and function i-1 takes stack parameters (FUNC or STACK WIN parameter size).
-    Words of a scanned frame never look like return addresses; the word below a scanned return address is 0 (no %ebp
-    recovery), every other skipped slot holds look-alikes.  Returns (case line, expected callers)."""
+    Words of a scanned frame never look like return addresses; the word below a scanned return address is a saved %ebp
+    the scan recovers; every slot skipped by STACK WIN / CFI holds look-alikes.  Returns (case line, expected callers)."""
     A = ARCH[0]
     mb = 0x40000000
     base = 0x80000000
@@ -194,7 +194,7 @@ def win_scan_mix_stack(rng, depth):
     code = lambda i: mb + funs[i]["off"] + 0x10 + 4 * rng.below(32)
     lookalike = lambda: rng.choice([mb + funs[rng.below(nfun)]["off"] + 0x20, base + 4 * rng.below(64), rng.below(1 << 32), 0x11110000 + rng.below(100)])
     inert = lambda: rng.choice([0, 0, base + 4 * rng.below(64), 0x11110000 + rng.below(100), 1 + rng.below(4000)])
-    data, exp, lines = [], [], []
+    data, exp, lines, patch = [], [], [], []
     sp = base
     for i in range(nfun):
         f = funs[i]
@@ -203,12 +203,12 @@ def win_scan_mix_stack(rng, depth):
         ra = code(i + 1) if i + 1 < nfun else 0
         nw = fsize // 4
         if f["kind"] == "none":
-            win = 160 if i == 0 else 40
-            while nw >= win:                      # keep the return address inside the scan window of this callee
-                f["locals"] -= 4
-                nw -= 1
-            fsize = 4 * nw
+            if nw == 0:
+                f["locals"], nw = 4, 1            # room for the saved-%ebp slot below the return address
+            fsize = 4 * nw                        # (at most 3 + 7 + 1 words: inside the 40-word window)
             for w in range(nw):
+                if w == nw - 1:
+                    patch.append(len(data))
                 data += le_bytes(0 if w == nw - 1 else inert(), 4)
         else:
             for _ in range(nw):
@@ -228,9 +228,15 @@ def win_scan_mix_stack(rng, depth):
         if f["kind"] == "cfi":
             lines.append("STACK CFI INIT %x 100 .cfa: $esp %d + .ra: .cfa 4 - ^" % (f["off"], fsize + 4))
     data += le_bytes(0, 4) * 2
+    # the word below every scanned return address is a saved %ebp = the address of the LAST word of the stack memory:
+    # the scan recovers it (STACK WIN frame data needs a valid %ebp), and the frame-pointer technique gives up on it
+    # (the return-address slot at %ebp + 4 is outside the stack memory)
+    last_word = base + len(data) - 4
+    for o in patch:
+        data[o:o + 4] = le_bytes(last_word, 4)
     sym_t = "T|" + "|".join(l.replace(" ", "~") for l in lines)
     gp = [rng.choice([0x0b0b0b0b, 0, mb + 0x1234])] + [0] * (A["ngp"] - 1)
-    case = fmt_case(0, os_, mb + funs[0]["off"] + 0x10, base, 0, 0, gp, "*", base, data, [(mb, 0x10000, sym_t)])
+    case = fmt_case(0, os_, mb + funs[0]["off"] + 0x10, base, rng.choice([0, last_word]), 0, gp, "*", base, data, [(mb, 0x10000, sym_t)])
     return case, exp
 
 
@@ -413,6 +419,11 @@ class C04(PropBase):
             case, exp = win_recursion_stack(rng, rng.choice([3, 3, 4, 5, 8, 16]))
             cases.append(case + " " + fmt_exp(exp))
         dist["stack_win_x86_recursion"] = n_e
+        n_f = 700 if tier == "quick" else 7000
+        for _ in range(n_f):
+            case, exp = win_scan_mix_stack(rng, rng.choice([2, 3, 3, 4, 5, 6, 8, 12, 20, 40]))
+            cases.append(case + " " + fmt_exp(exp))
+        dist["x86_scan_stack_win_cfi_mixed"] = n_f
         return cases, dist, False
 
 
